@@ -10,6 +10,7 @@ import (
 
 	"berty.tech/go-ipfs-log/entry"
 	"berty.tech/go-orbit-db/iface"
+	cid "github.com/ipfs/go-cid"
 	"pgregory.net/rapid"
 	"verif/harness/world"
 )
@@ -238,6 +239,31 @@ func execC12(c CaseC12) *Outcome {
 			if !cl.W.InjectDirect(env.X, env.V, msg) {
 				return fail("harness: victim has no direct channel")
 			}
+		}
+	}
+	// the very next message is a valid announcement of another shape than the mutated one: the first entry of
+	// an authorised writer that has seen nothing (no parents, no references) - whatever the hostile message
+	// left behind in the receiver must not leak into it
+	{
+		payload, op := opPayload(c.Type, "k1", []byte("fresh-writer-first-entry"))
+		fe, err := env.craftValid(ctx, payload, []cid.Cid{})
+		if err != nil {
+			return fail("harness: craft: %v", err)
+		}
+		env.registerCrafted(fe, env.C, op)
+		if err := env.deliver(ctx, c.Route, []*entry.Entry{fe}); err != nil {
+			return fail("harness: %v", err)
+		}
+		fh := fe.Hash.String()
+		vv := env.victim()
+		if err := cl.W.WaitClaim("a valid first entry of another writer, announced right after the hostile message, becomes visible", func() bool {
+			return world.Has(vv, fh) && cl.W.Quiescent([]iface.Store{vv}, nil)
+		}, []iface.Store{vv}, nil, claimTimeout); err != nil {
+			if err == world.ErrInconclusive {
+				o.Inconclusive = true
+				return o
+			}
+			return fail("after the %s message %q: %v", c.Route, clip(msg), err)
 		}
 	}
 	// the untouched original of the mutated message, sent afterwards by the same route, must still be
